@@ -301,6 +301,28 @@ fn main() {
         }
     }
 
+    // 4d. EVERY small numerator over a denominator far longer than any configured precision (1301 digits, beyond
+    // 64*64 bits): quotient digits beyond the precision are spread evenly, so a quotient worked out with g guard
+    // digits too few is wrong for about one numerator in 10^g
+    {
+        let den: BigInt = format!("{}7", "1234567890".repeat(130)).parse().unwrap();
+        let db = Dec { n: den, s: 3 };
+        let xb = bd(&db);
+        let nmax: i64 = if p <= 3 { 1500 } else { 4000 };
+        for a in 1..=nmax {
+            o.checks += 1;
+            let da = Dec::new(if a % 7 == 0 { -a } else { a }, 0);
+            match guard(|| &bd(&da) / &xb) {
+                Ok(r) => {
+                    if let Err(e) = judge_div(&da, &db, &dec(&r), p) {
+                        o.bad("division (small numerator, 1301-digit denominator)", format!("{} / {}", da.show(), db.show()), e, dec(&r).show());
+                    }
+                }
+                Err(e) => o.bad("division", format!("{} / {}", da.show(), db.show()), "a quotient".into(), e),
+            }
+        }
+    }
+
     // 5. exp delivers the configured number of digits
     for x in [Dec::new(1, 0), Dec::new(-1, 0), Dec::new(5, 1), Dec::new(-5, 1), Dec::new(10, 0), Dec::new(1, 30), Dec::new(-3, 0)] {
         o.checks += 1;
